@@ -1600,7 +1600,7 @@ func init() {
 
 func init() {
 	register(&Rule{
-		ID: "C07.R9", Props: []string{"C07"}, Min: 2,
+		ID: "C07.R9", Props: []string{"C07", "C08"}, Min: 2,
 		Doc: "the layout route is chosen from what Load bound: Template.Render decides between the layout chain and plain rendering by reading the `layout` key through the template's own scope (Get), and Template.Load binds the loaded file's front-matter into that very scope — so a page rendered straight after Load (RenderFile, Load(x).Render()) still sees the layout its front-matter names. Dropping the binding from Load leaves the decision blind unless a Fill happens in between",
 		Run: func(p *Prog, c *Ctx) {
 			render := p.MustFn("(*vuego.template).Render")
